@@ -169,7 +169,7 @@ theorem retarget_inv (spec : Spec) (present walked derived refreshed changed : L
     · simp only [List.contains_eq_mem, hw, decide_false] at hv
       have e1 := iS.cache g v (by simpa using hv)
       obtain ⟨hd, hr, hu⟩ := hR.walk g hw
-      rw [e1, ideal_eq spec sem _ x hR.sorted g, ideal_eq spec sem _ x' hR.sorted g]
+      rw [← e1, ideal_eq spec sem _ x hR.sorted g, ideal_eq spec sem _ x' hR.sorted g]
       simp [hd, hr, hu, inputArg]
   · intro p hp
     simp only [retarget]
@@ -212,7 +212,7 @@ theorem no_stale_result (spec : Spec) (present walked derived refreshed changed 
     (h : List Nat) (g : Nat) (v : V)
     (hv : (retarget sem walked refreshed changed new x'
             (run spec sem h (construct sem derived cp x))).cache g = some v) :
-    v = ideal spec sem (construct sem derived (newParams changed new cp) x').params x' g :=
+    ideal spec sem (construct sem derived (newParams changed new cp) x').params x' g = some v :=
   (retarget_inv spec present walked derived refreshed changed sem cp new x x' hR hp hnew h).cache g v hv
 
 /-- No result found in a walked class dictionary survives, and its compute count starts again. -/
@@ -288,6 +288,7 @@ theorem refreshed_within_derived :
 /-- a semantics over numbers on which staleness is visible -/
 def numSem : Sem Nat Nat :=
   { F := fun g dvs pvs x => 1000 * (g + 1) + dvs.sum + (pvs.map (fun o => o.getD 7)).sum + x.getD 0
+    raises := fun _ _ _ _ => false
     W := fun g p _ _ _ => 50 + g + p
     C := fun _ _ v => v + 1
     CI := fun _ x => x + 1
